@@ -301,7 +301,9 @@ def do_dataset(ctx, recipe: dict, items: list, label: str, labels: list | None =
     ctx.evaluated()
     for sig, k, msg in fails:
         d = {'recipe': recipe, 'op': 'tri'}
-        if k is not None and cells[k] is not None and sum(1 for p in cells if p is not None) > 1:
+        shrunk = getattr(ctx, '_c14_shrunk', 0)
+        if shrunk < 12 and k is not None and cells[k] is not None and sum(1 for p in cells if p is not None) > 1:
+            ctx._c14_shrunk = shrunk + 1
             # shrink to the single offending cell when it fails on its own as well
             r1 = single_recipe(cells[k])
             b1 = G.build(r1)
